@@ -80,9 +80,10 @@ SPEC = {
             body_size <= 0x1000_0000, signature_size <= 256,
             security_header is Symmetric,
         ensures
-            r.0 == spec_pad(secured(self), body_size, signature_size),
-            secured(self) ==> r.1 == 1,
-            !secured(self) ==> r.1 == 0,'''),
+            // Part 6 6.7.2: padding exists only in a chunk that is encrypted (a signed-only chunk has none)
+            r.0 == spec_pad(encrypting(self), body_size, signature_size),
+            encrypting(self) ==> r.1 == 1,
+            !encrypting(self) ==> r.1 == 0,'''),
     'body_size_from_message_size': ('r', '''        requires old_ok(secure_channel), message_type != MessageChunkType::OpenSecureChannel, message_size <= 0x1000_0000,
         ensures
             message_size < MIN_CHUNK_SIZE ==> r is Err,
@@ -109,6 +110,10 @@ pub open spec fn spec_asym_padding(p: SecurityPolicy) -> RsaPadding {
 pub open spec fn secured(c: &SecureChannel) -> bool {
     c.security_policy != SecurityPolicy::None && c.security_mode != MessageSecurityMode::None
 }
+// symmetric chunks are encrypted (and therefore padded) only in mode SignAndEncrypt
+pub open spec fn encrypting(c: &SecureChannel) -> bool {
+    c.security_policy != SecurityPolicy::None && c.security_mode == MessageSecurityMode::SignAndEncrypt
+}
 pub open spec fn old_ok(c: &SecureChannel) -> bool { c.security_policy != SecurityPolicy::Unknown }
 // PaddingSize per Part 6 6.7.2.5: bytes appended (including the 1-byte padding-size field) so that
 // sequence header + body + padding + signature is a whole number of cipher blocks
@@ -120,18 +125,18 @@ pub open spec fn spec_pad(sec: bool, body: usize, sig: usize) -> usize {
 }
 pub open spec fn spec_body(c: &SecureChannel, m: usize) -> usize {
     let sig = spec_sym_sig(c.security_policy);
-    (m - (12 + 4 + 8 + spec_pad(secured(c), 1, sig) + sig)) as usize
+    (m - (12 + 4 + 8 + spec_pad(encrypting(c), 1, sig) + sig)) as usize
 }
 // total bytes on the wire for a symmetric chunk with body b
 pub open spec fn spec_chunk_size(c: &SecureChannel, b: usize) -> int {
     let sig = spec_sym_sig(c.security_policy);
-    12 + 4 + 8 + b + spec_pad(secured(c), b, sig) + sig
+    12 + 4 + 8 + b + spec_pad(encrypting(c), b, sig) + sig
 }
 // KNOWN FINDING C07.chunk_overshoot (known_findings.txt): the padding reserved by body_size_from_message_size is
 // that of a 1-byte body, not the maximum; a chunk filled to the computed body size exceeds the negotiated size m
 // exactly for these residues of m.
 pub open spec fn kf_c07_overshoot(c: &SecureChannel, m: usize) -> bool {
-    secured(c) && (
+    encrypting(c) && (
         (spec_sym_sig(c.security_policy) == 32 && 1 <= (m - 22) % 16 <= 9)
         || (spec_sym_sig(c.security_policy) == 20 && 1 <= (m - 18) % 16 <= 13))
 }
@@ -143,6 +148,13 @@ proof fn lemma_chunk_fits(c: &SecureChannel, m: usize, b: usize)
     requires old_ok(c), MIN_CHUNK_SIZE <= m <= 0x1000_0000, b <= spec_body(c, m), !kf_c07_overshoot(c, m),
     ensures spec_chunk_size(c, b) <= m,
 {
+    let sig = spec_sym_sig(c.security_policy);
+    if !encrypting(c) {
+        // signed-only or unsecured: no padding, the full chunk is exactly m
+        assert(spec_pad(false, b, sig) == 0 && spec_pad(false, 1, sig) == 0);
+    } else {
+        assert(sig == 20 || sig == 32);
+    }
 }
 // the listed finding is exactly the overshoot class: inside it the full chunk exceeds m (so the carve-out above
 // excludes nothing else), and by at most 15 bytes
@@ -153,7 +165,7 @@ proof fn lemma_kf_class_is_exact(c: &SecureChannel, m: usize)
 }
 // C07: what is signed/encrypted is a whole number of cipher blocks
 proof fn lemma_block_multiple(c: &SecureChannel, b: usize)
-    requires old_ok(c), secured(c), b <= 0x1000_0000,
+    requires old_ok(c), encrypting(c), b <= 0x1000_0000,
     ensures (8 + b + spec_pad(true, b, spec_sym_sig(c.security_policy)) + spec_sym_sig(c.security_policy)) % 16 == 0,
 {
 }
@@ -182,11 +194,11 @@ proof fn witness_kf_c07_overshoot(c: &SecureChannel)
 
 CANARY = '''
 proof fn canary_padding_size_pre(c: &SecureChannel, h: SecurityHeader, body_size: usize, signature_size: usize)
-    requires old_ok(c), body_size <= 0x1000_0000, signature_size <= 256, h is Symmetric, secured(c),
+    requires old_ok(c), body_size <= 0x1000_0000, signature_size <= 256, h is Symmetric, encrypting(c),
     ensures false,
 {}
 proof fn canary_chunk_fits_pre(c: &SecureChannel, m: usize, b: usize)
-    requires old_ok(c), secured(c), MIN_CHUNK_SIZE <= m <= 0x1000_0000, b <= spec_body(c, m), !kf_c07_overshoot(c, m),
+    requires old_ok(c), encrypting(c), MIN_CHUNK_SIZE <= m <= 0x1000_0000, b <= spec_body(c, m), !kf_c07_overshoot(c, m),
     ensures false,
 {}
 '''
